@@ -190,6 +190,32 @@ prop("C10",
      )
 
 
+# ---------------------------------------------------------------------------------------------
+# C09 Range
+prop("C09",
+     family="range",
+     mc=lambda tier: [("MC_Range", "MC_Range.cfg")],
+     driver=lambda tier, seed, gen, out: ["range", "-out", out, "-seed", str(seed)] +
+     _t(tier, ["-n", "6000", "-big", "600"], ["-n", "150000", "-big", "20000"]),
+     trace=("Trace_Range", "Trace_Range.cfg"),
+     required=["impl:soft", "impl:wrap", "impl:mixed", "coll:resources", "coll:soft", "coll:wrapcol", "rules",
+               "filtered", "ids", "nonempty-page", "big", "kind:uint64", "kind:*bytes", "kind:*time", "kind:bool"],
+     level_text="An operational Range in TLA+ (select, filter with the C10 specification, stable sort by the rules, "
+                "page) is model-checked against the declarative RangeOK over 41,796 cases (all value assignments of "
+                "three resources incl. nil, 43 rule lists, sizes 0-3, filters, id lists, all six input orders). The "
+                "driver generates seeded cases over all 28 kinds, soft / wrapped / mixed resources, the three "
+                "collection implementations, asks the real Range for every page for several input orders, and "
+                "TLC's monitor judges the recorded pages with the same RangeOK (membership: ties in any order "
+                "unless id is a rule). Random collections of 4-8 resources carry real 64-bit values, byte strings, "
+                "zoned instants and strings, ranked by an independent order or sent as byte sequences.",
+     level_note="Known finding: rules on uint64 / *uint64 / *[]byte attributes are ignored (pinned by "
+                "TestSortResources). Under a '-' rule nil may come first or last (the property fixes nil only for "
+                "ascending order). Cases are generated by the driver, not by TLC; TLC is the judge of every event.",
+     assumptions=["unique ids, id lists without repetition", "number*size far below 2^63"],
+     coverage=False,
+     )
+
+
 def run(pid, tier, seed):
     P = PROPS[pid]
     if "run" in P:
